@@ -13,6 +13,7 @@ One schedule per input line, one JSON result per output line.
              t      advance the clock to the earliest timer and fire it (tick / gc / log)
              w<n>   advance the clock by n ms (never past the earliest timer)
              p<d>   create_task(pool.prune_inactive_connections(db d))
+             c<i>   cancel the i-th acquire() task that has not returned yet (Task.cancel())
              x      run ONE callback of the loop's FIFO ready queue     q  run until it is empty
              bu / bf<i> / bd<d>   malformed releases: unknown database / a connection of
                                   another block / a connection that is idle in the stack
@@ -173,6 +174,16 @@ class Sim:
         self.maxc = maxc
         self.pool = pm.Pool(connect=self._connect, disconnect=self._disconnect,
                             max_capacity=maxc, min_idle_time_before_gc=gc_ms / 1000.0)
+        orig_rebalance = self.pool._maybe_rebalance
+
+        def _rebalance_probe():
+            p = self.pool
+            self.rebalance_stats['calls'] += 1
+            if not p._is_starving and p._cur_capacity == p._max_capacity - 1 and any(
+                    b.quota - b.count_conns() >= 2 for b in p._blocks.values()):
+                self.rebalance_stats['two_under_at_max_minus_1'] += 1
+            return orig_rebalance()
+        self.pool._maybe_rebalance = _rebalance_probe
         self.n_conn = 0          # connection ids
         self.n_cid = 0           # connect call ids
         self.n_did = 0           # disconnect call ids
@@ -181,6 +192,10 @@ class Sim:
         self.disc_calls = collections.OrderedDict()   # did -> (conn, fut)
         self.fut_cid = {}        # id(fut) -> cid    (kept for ready-queue labelling)
         self.cid_db = {}
+        self.fut_task = {}       # id(waiter future) -> task id (remembered: a cancelled task forgets its waiter)
+        self.cancelled = set()   # tasks the harness cancelled
+        self.late_cancel_dbs = set()
+        self.rebalance_stats = {'calls': 0, 'two_under_at_max_minus_1': 0}
         self.fut_did = {}
         self.keep = []           # keep futures alive (ids stay unique)
         self.tasks = collections.OrderedDict()        # t -> (kind, db, task)
@@ -254,7 +269,7 @@ class Sim:
                         fr = owner.get_coro().cr_frame
                         loc = fr.f_locals if fr is not None else {}
                         if kind == 'A':
-                            out.append(f'As{t}')
+                            out.append(f'Ac{t}' if t in self.cancelled else f'As{t}')
                         elif kind == 'P':
                             out.append(f'Ps{t}')
                         elif qn.endswith('._connect'):
@@ -272,7 +287,10 @@ class Sim:
                         elif id(fut) in self.fut_did:
                             out.append(f'Dw{self.fut_did[id(fut)]}')
                         elif kind == 'A':
-                            out.append(f'Aw{t}' + ('-' if fut.exception() is not None else '+'))
+                            if t in self.cancelled or fut.cancelled():
+                                out.append(f'Ac{t}')
+                            else:
+                                out.append(f'Aw{t}' + ('-' if fut.exception() is not None else '+'))
                         elif kind == 'P':
                             if isinstance(fut, asyncio.Future) and type(fut).__name__ == '_GatheringFuture':
                                 out.append(f'Pf{t}')
@@ -286,14 +304,21 @@ class Sim:
                     out.append('?' + repr(cb)[:40])
         return out[0]
 
+    def _learn_waiters(self):
+        for t, (kind, db, tk) in self.tasks.items():
+            f = getattr(tk, '_fut_waiter', None)
+            if f is not None and id(f) not in self.fut_task:
+                self.fut_task[id(f)] = t
+                self.keep.append(f)
+
     def _waiter_ids(self, block):
+        self._learn_waiters()
         res = []
         for f in block.conn_waiters:
-            lab = '?'
-            for t, (kind, db, tk) in self.tasks.items():
-                if getattr(tk, '_fut_waiter', None) is f:
-                    lab = str(t)
-                    break
+            t = self.fut_task.get(id(f))
+            lab = '?' if t is None else str(t)
+            if f.done():
+                lab += '!'
             res.append(lab)
         return res
 
@@ -363,6 +388,11 @@ class Sim:
             if not tk.done() or t in self.done_tasks:
                 continue
             self.done_tasks.add(t)
+            if tk.cancelled():
+                self.outs.append(f'acanc{t}')
+                if t not in self.cancelled:
+                    self.mon.append(('M3', f'task {t} ended cancelled although nobody cancelled it'))
+                continue
             exc = tk.exception()
             if kind == 'A':
                 if exc is None:
@@ -411,6 +441,20 @@ class Sim:
             self.loop.leave()
         self.tasks[t] = ('P', f'd{d}', tk)
         self.emit(f'P {t} d{d}')
+
+    def ev_cancel(self, t):
+        kind, db, tk = self.tasks[t]
+        self._learn_waiters()
+        f = getattr(tk, '_fut_waiter', None)
+        if f is not None and f.done() and not f.cancelled() and f.exception() is None:
+            self.late_cancel_dbs.add(db)     # woken by release()/_connect(), not resumed yet
+        self.loop.enter()
+        try:
+            tk.cancel()
+        finally:
+            self.loop.leave()
+        self.cancelled.add(t)
+        self.emit(f'K {t}')
 
     def ev_run(self):
         if not self.loop._ready:
@@ -609,6 +653,10 @@ class Sim:
                 self.ev_advance(n)
             elif k == 'p':
                 self.ev_prune(n)
+            elif k == 'c':
+                pa = [t for t in self.pending_acquires() if t not in self.cancelled]
+                if pa:
+                    self.ev_cancel(pa[n % len(pa)])
             elif k == 'x':
                 self.ev_run()
             elif k == 'q':
@@ -702,6 +750,7 @@ class Sim:
                                            if not cs.in_use and c not in b.conn_stack]),
                            'cur': p._cur_capacity, 'max': p._max_capacity,
                            'nblocks': len(p._blocks), 'starving': p._is_starving,
+                           'late_cancel': db in self.late_cancel_dbs,
                            'idle_elsewhere': any(len(b2.conn_stack) > 0 for b2 in p._blocks.values()
                                                  if b2 is not b)})
             st['tick_crashing'] = self.last_tick_crash
@@ -790,7 +839,8 @@ def _run_case(line):
         'stats': {'ndb': len(nt['dbs']), 'cap': nt['cap_reached'], 'waiter': nt['waiter'],
                   'closes': nt['transfer'], 'modes': sorted(nt['tick_modes']),
                   'kinds': dict(sim.kinds), 'nacq': sum(1 for v in sim.tasks.values() if v[0] == 'A'),
-                  'afail': len(sim.failed_acq)},
+                  'afail': len(sim.failed_acq), 'cancelled': len(sim.cancelled),
+                  'rebalance': sim.rebalance_stats},
     })
     return res
 
